@@ -1,5 +1,5 @@
 (* Model of the four LIST.NEIGHBOR* instruction bodies (src/push/list.rs:265-355),
-   as written.  All four start alike:
+   as written (reference derefs omitted in the snippets).  All four start alike:
 
      if let Some(topology) = int_stack.pop_vec(3 | 4) {        // nothing happens with fewer INTEGERs
          let position = topology[3] as usize;                  // *VALS only: the TOP integer
@@ -29,7 +29,7 @@
 
    The neighbour list comes from the model of Topology::find_neighbors
    (Model/Topology.v), which depends on the build profile (`powf(2.0)`), hence
-   the [profile] argument.  *VALS: `code_stack.get(*n as usize)` is the record
+   the [profile] argument.  *VALS: `code_stack.get(n as usize)` is the record
    n positions below the top of the CODE stack; neighbours without a CODE item
    are skipped, the others contribute bval/ival/fval(item, position) — the
    vector can be shorter than the neighbourhood, and ANY code item counts (a
@@ -75,7 +75,7 @@ Section NeighborInstr.
     | _ => Ok s
     end.
 
-  (* for n in neighbors { if let Some(item) = code_stack.get(*n as usize) { result.push(f(item, &position)) } } *)
+  (* for n in neighbors { if let Some(item) = code_stack.get(n as usize) { result.push(f(item, &position)) } } *)
   Fixpoint nbr_vals {A} (f : item -> Z -> A) (code : list item) (position : Z) (nbrs : list Z) : list A :=
     match nbrs with
     | [] => []
